@@ -77,7 +77,7 @@ func (f *Func) Redefine(opts ...Arg) (*Func, error) {
 
 		// Setup our values
 		for name, f := range set.namedValues {
-			callArgs = append(callArgs, Named(name, v.Field(f.index).Interface()))
+			callArgs = append(callArgs, namedValue(name, v.Field(f.index)))
 		}
 		for _, f := range set.typedValues {
 			callArgs = append(callArgs, Typed(v.Field(f.index).Interface()))
@@ -113,6 +113,23 @@ func (f *Func) Redefine(opts ...Arg) (*Func, error) {
 	return NewFunc(fn.Interface(),
 		FuncName(f.Name()), // Preserve the name from the original func
 	)
+}
+
+// namedValue is like Named but takes the value as a reflect.Value and keeps
+// its static type. Redefine uses this to hand the inputs of the redefined
+// function on to the original function: an input declared with an interface
+// type must stay a value of that interface type, since a named requirement
+// only matches a named value of exactly its type. Named can't express this
+// because it only sees the dynamic type.
+func namedValue(n string, rv reflect.Value) Arg {
+	return func(a *argBuilder) error {
+		if !rv.IsValid() {
+			return nil
+		}
+
+		a.named[strings.ToLower(n)] = rv
+		return nil
+	}
 }
 
 // redefineInputs is called by Redefine to determine the input struct type
